@@ -35,8 +35,15 @@ class Gen:
         self.stats = {}
 
     # ---- environment ----
+    DANGEROUS = ["iterator", "default", "func", "mapper", "predicate", "res", "con", "value", "array", "i", "len",
+                 "iter", "acc", "curr", "n", "log2"]
+
     def fresh(self, base="v"):
         self.counter += 1
+        # sometimes reuse a name that helper closures / desugarings use internally (or that is already
+        # bound: shadowing), so that leaks between scopes become visible
+        if base == "v" and self.r.random() < 0.12:
+            return self.r.choice(self.DANGEROUS)
         return f"{base}{self.counter}"
 
     def bind(self, n, t):
@@ -294,7 +301,7 @@ class Gen:
             return ["destruct", [a, b], ["expr", e]]
         if k < 0.44:
             n = self.fresh("f")
-            p = self.fresh("p")
+            p = n if r.random() < 0.15 else self.fresh("p")
             rt_ = r.choice([INT, BOOL])
             f = self.fn_expr([[p, INT]], rt_, d)
             self.bind(n, FN_II if rt_ == INT else FN_IB)   # bound afterwards: no unguarded recursion
@@ -313,7 +320,19 @@ class Gen:
             finally:
                 self.scopes.pop()
             els = None if r.random() < 0.5 else self.block(1, d + 1)
-            return ["stm", ["ifset", n, "int", self.expr(r.choice([U_IS, U_IV]), d + 1), body, els]]
+            k2 = r.random()
+            if k2 < 0.6:
+                return ["stm", ["ifset", n, "int", self.expr(r.choice([U_IS, U_IV]), d + 1), body, els]]
+            # declared type strictly wider than the runtime type of the tested value
+            self.scopes.append([(n, U_IS)])
+            try:
+                body = self.block(1, d + 1)
+            finally:
+                self.scopes.pop()
+            if k2 < 0.8:
+                return ["stm", ["ifset", n, U_IS, self.expr(r.choice([INT, STRING, U_IS]), d + 1), body, els]]
+            return ["stm", ["ifset", n, "any", self.expr(r.choice([INT, STRING, ARR_INT, U_IV]), d + 1),
+                            ["block", ["stm", ["expr", self.expr(INT, d + 1)]]], els]]
         if k < 0.68:
             return ["stm", self.match_stm(d)]
         if k < 0.78:
@@ -354,6 +373,14 @@ class Gen:
                 arms.append(["aother", self.block(1, d + 1)])
             return ["match", scrut] + arms
         self.stat("match.value")
+        if r.random() < 0.35:
+            # union-typed scrutinee, candidates of different types within one arm
+            scrut = self.expr(U_IS, d + 1)
+            mixed = lambda: self.expr(r.choice([INT, STRING]), d + 2)
+            arms = [["aval", [mixed() for _ in range(r.randrange(2, 4))], self.block(1, d + 1)]
+                    for _ in range(r.randrange(1, 3))]
+            arms.append(["aother", self.block(1, d + 1)])
+            return ["match", scrut] + arms
         scrut = self.expr(INT, d + 1)
         arms = [["aval", [self.expr(INT, d + 2) for _ in range(r.randrange(1, 3))], self.block(1, d + 1)]
                 for _ in range(r.randrange(1, 3))]
@@ -379,7 +406,7 @@ class Gen:
             # the counter cell is declared in an enclosing block so that the loop terminates
             if k < 0.6:
                 self.stat("while")
-                self.scopes.append([(c, MUT_INT)])
+                self.scopes.append([])   # the loop counter is not visible to generated code (termination)
                 try:
                     body = self.block(r.randrange(0, 2), d + 1)
                 finally:
@@ -389,7 +416,7 @@ class Gen:
                         ["stm", ["while", ["bin", "<", ["pre", "deref", V(c)], I(lim)], body]]]
             if k < 0.8:
                 self.stat("loop")
-                self.scopes.append([(c, MUT_INT)])
+                self.scopes.append([])   # the loop counter is not visible to generated code (termination)
                 try:
                     body = self.block(r.randrange(0, 2), d + 1)
                 finally:
@@ -434,7 +461,7 @@ def program(rnd, n_lines=6, max_depth=3):
     # final observation: a few visible first-order variables and the log
     obs = []
     for t in (INT, BOOL, STRING, ARR_INT, TUP_IB, U_IS):
-        vs = [v for v in g.vars_of(t) if not v.startswith(("p", "x", "m", "u", "w"))]
+        vs = [v for v in g.vars_of(t) if not v.startswith(("p", "x", "m", "u", "w")) or v in Gen.DANGEROUS]
         if vs:
             obs.append(V(vs[0]))
     cells = [v for v in g.vars_of(MUT_INT) if v.startswith("v")]
